@@ -66,6 +66,12 @@ def pmGet (pm : List Param) (k : Nat) : Int :=
   | some p => p.1
   | none => 0
 
+/-- `len(primary[0])` (0 for an empty screen: `Stmt.forS` refuses to evaluate it then) -/
+def oldWidth (g : Grid) : Int :=
+  match g with
+  | [] => 0
+  | r :: _ => r.length
+
 def evalEx (pm : List Param) (s : Frame) (lvs : List Int) : Ex → Int
   | .lit n => n
   | .loc l => s.get l
@@ -79,6 +85,8 @@ def evalEx (pm : List Param) (s : Frame) (lvs : List Int) : Ex → Int
   | .psParams => ps pm
   | .tab => s.tab
   | .param0 => s.param
+  | .lenOld => s.old.length
+  | .lenOld0 => oldWidth s.old
 
 /-- every `pm[k][0]` inside the expression is in range -/
 def exOk (pm : List Param) : Ex → Bool
@@ -209,6 +217,11 @@ def evalG (pm : List Param) (s : Frame) : Stmt → List Int → Grid → M (Grid
   | .setMode _ _, _, g => .ok (g, .norm)     -- excluded by `wf`
   | .forParams _, _, g => .ok (g, .norm)     -- excluded by `wf`
   | .reply, _, g => .ok (g, .norm)           -- excluded by `wf`
+  | .forS _ _ _ _, _, g => .ok (g, .norm)    -- excluded by `wf`
+  | .loadOldCell _ _, _, g => .ok (g, .norm) -- excluded by `wf`
+  | .penFromCell, _, g => .ok (g, .norm)     -- excluded by `wf`
+  | .printCell, _, g => .ok (g, .norm)       -- excluded by `wf`
+  | .assignCellWrapped _, _, g => .ok (g, .norm)  -- excluded by `wf`
   | .unknown _, _, g => .ok (g, .norm)       -- excluded by `noUnknown`
 
 /-- `vt.f(arg)` for the modelled callees (the code as it is now: `Fixes.current`). -/
@@ -243,6 +256,28 @@ def paramLoop (body : Int → Frame → M (Frame × Sig)) : List Param → Frame
     let r ← body p.1 s
     if r.2 = .brk ∨ r.2 = .ret then .ok r.1 else paramLoop body rest r.1
 
+/-- A function-level ascending loop: `n` iterations from `i`; `break` ends the loop, `return` ends the function. No
+    iteration limit: the trip count is the length of a slice. -/
+def forSGo (body : Int → Frame → M (Frame × Sig)) : Nat → Int → Frame → M (Frame × Sig)
+  | 0, _, s => .ok (s, .norm)
+  | n + 1, i, s => do
+    let r ← body i s
+    if r.2 = .brk then .ok (r.1, .norm)
+    else if r.2 = .ret then .ok (r.1, .ret)
+    else forSGo body n (i + 1) r.1
+
+/-- does the bound read `len(primary[0])`? (then `primary` must not be empty) -/
+def exReadsOld0 : Ex → Bool
+  | .lenOld0 => true
+  | .add a b => exReadsOld0 a || exReadsOld0 b
+  | .sub a b => exReadsOld0 a || exReadsOld0 b
+  | _ => false
+
+def bndReadsOld0 : Bnd → Bool
+  | .lt e => exReadsOld0 e
+  | .le e => exReadsOld0 e
+  | .both a b => bndReadsOld0 a || bndReadsOld0 b
+
 /-- `for i := first; i < limit; i += step`: the values of `i` -/
 def rangeStep (first limit step : Nat) : List Int :=
   if step = 0 then [] else (List.range ((limit - first + step - 1) / step)).map (fun k => ((first + k * step : Nat) : Int))
@@ -267,10 +302,6 @@ def evalS (pm : List Param) : Stmt → Frame → M (Frame × Sig)
   | .prim .snapshotPrimary, s => .ok ({ s with old := s.e.primary }, .norm)
   | .prim .activePrimary, s => .ok ({ s with e := { s.e with altActive := false } }, .norm)
   | .prim .activeBySmcup, s => .ok ({ s with e := { s.e with altActive := s.e.mode.smcup } }, .norm)
-  | .prim .reflowOld, s => do
-    -- `last` is local 2 of resize()
-    let e' ← reflow Fixes.current (s.vars 2) s.old 0 s.e
-    .ok ({ s with e := e' }, .norm)
   | .prim .activeAlt, s => .ok ({ s with e := { s.e with altActive := true } }, .norm)
   | .prim .stateCapture, s =>
     .ok ({ s with state := { cur := s.e.cur, decawm := s.e.mode.decawm, decom := s.e.mode.decom,
@@ -292,6 +323,22 @@ def evalS (pm : List Param) : Stmt → Frame → M (Frame × Sig)
   | .setMode f b, s => .ok ({ s with e := { s.e with mode := s.e.mode.set f b } }, .norm)
   | .reply, s => .ok (s, .norm)
   | .tabsAppendRange a b c, s => .ok ({ s with e := { s.e with tabs := s.e.tabs ++ rangeStep a b c } }, .norm)
+  | .forS v lo hi body, s =>
+    -- `primary[0]` in the loop condition is an index expression
+    if bndReadsOld0 hi && s.old.isEmpty then .error .oob
+    else if !exOk pm lo then .error .oob
+    else
+      forSGo (fun i s => evalS pm body (s.set (.var v) i))
+        (evalBnd pm s [] hi + 1 - evalEx pm s [] lo).toNat (evalEx pm s [] lo) s
+  | .loadOldCell r c, s => do
+    let row ← getI s.old (evalEx pm s [] r)
+    let x ← getI row (evalEx pm s [] c)
+    .ok ({ s with cell := x }, .norm)
+  | .penFromCell, s => .ok ({ s with e := { s.e with cur := { s.e.cur with st := s.cell.st } } }, .norm)
+  | .printCell, s => do
+    let e' ← print Fixes.current s.e s.cell.g s.cell.w
+    .ok ({ s with e := e' }, .norm)
+  | .assignCellWrapped k, s => .ok (s.set (.var k) (if s.cell.wrapped then 1 else 0), .norm)
   | .forParams body, s => do
     let s' ← paramLoop (fun p s => do
       let r ← evalS pm body { s with param := p }
@@ -374,6 +421,7 @@ def noUnknown : Stmt → Bool
   | .forDown _ _ b => noUnknown b
   | .forTabs b => noUnknown b
   | .forParams b => noUnknown b
+  | .forS _ _ _ b => noUnknown b
   | .forTabsDown b => noUnknown b
   | .unknown _ => false
   | _ => true
@@ -425,6 +473,39 @@ def paramLoopWf : Stmt → Bool
   | .prim _ => true
   | _ => false
 
+/-- a loop bound that cannot change while the loop runs: literals and the lengths of the local snapshot `primary` -/
+def exStable : Ex → Bool
+  | .lit _ => true
+  | .lenOld => true
+  | .lenOld0 => true
+  | .add a b => exStable a && exStable b
+  | .sub a b => exStable a && exStable b
+  | _ => false
+
+def bndStable : Bnd → Bool
+  | .lt e => exStable e
+  | .le e => exStable e
+  | .both a b => bndStable a && bndStable b
+
+/-- inside a function-level loop: function-level statements (no grid loops, no `return`), nested function-level loops;
+    the loop variable `v` and the snapshot `primary` are not assigned (checked by the translator: they are declared by
+    the loop / by `primary := vt.primaryScreen` and any other assignment to them is outside the language) -/
+def sLoopWf : Stmt → Bool
+  | .skip => true
+  | .seq a b => sLoopWf a && sLoopWf b
+  | .ite _ t f => sLoopWf t && sLoopWf f
+  | .assign _ _ => true
+  | .setLastCol _ => true
+  | .call _ _ => true
+  | .brk => true
+  | .cont => true
+  | .loadOldCell _ _ => true
+  | .penFromCell => true
+  | .printCell => true
+  | .assignCellWrapped _ => true
+  | .forS _ lo hi b => exStable lo && bndStable hi && sLoopWf b
+  | _ => false
+
 /-- function level; `tail` = nothing follows this statement in the function -/
 def topWf (tail : Bool) : Stmt → Bool
   | .seq a b => topWf false a && topWf tail b
@@ -436,6 +517,7 @@ def topWf (tail : Bool) : Stmt → Bool
   | .forTabs b => tabLoopWf b
   | .forTabsDown b => tabLoopWf b
   | .forParams b => paramLoopWf b
+  | .forS _ lo hi b => exStable lo && bndStable hi && sLoopWf b
   | _ => true
 
 def Body.wf (b : Body) : Bool := topWf true b.stmt
